@@ -204,6 +204,8 @@ func genC16Case(t *rapid.T) *StructCase {
 		// library remembers about the type exists), THEN the function is registered globally, then comes
 		// the call: the name resolves to the function when the validation runs
 		c.LateReg, c.Warm = "LATE1", true
+		// ... or the name is known at the first validation already and registered AGAIN, with another function, before the call
+		c.ReReg = rapid.Bool().Draw(t, "reRegister")
 	}
 	return c
 }
